@@ -339,3 +339,35 @@ def _canon_zero(op, L, R, sh):
 
 def _fmt(a):
     return "{" + ",".join(x for x in sorted(a)) + "}"
+
+
+def rel_edges(f, pa, op, pb, truth=True):
+    """edges on which the relation `A op B` is `truth`, for every branch whose condition states that relation in any
+    spelling: `A op B`, `B flip(op) A`, the negated operator on the other edge, or under `!`.  pa / pb are predicates
+    over the (cast-stripped, x-resolved) operand nodes."""
+    out = []
+    for bid, cond, t, fl in f.branches():
+        c = strip_casts(f.resolve_x(cond))
+        neg = False
+        while c is not None and c.get("k") == "un" and c.get("op") == "!":
+            c = strip_casts(f.resolve_x(c["e"]))
+            neg = not neg
+        if c is None or c.get("k") != "bin" or c.get("op") not in REL:
+            continue
+        l, r = strip_casts(f.resolve_x(c["lhs"])), strip_casts(f.resolve_x(c["rhs"]))
+        cop = c["op"]
+        for a, b, o in ((l, r, cop), (r, l, REL_FLIP[cop])):
+            if a is None or b is None or not (pa(a) and pb(b)):
+                continue
+            if o == op:
+                holds_on_true = True
+            elif o == REL_NEG[op]:
+                holds_on_true = False
+            else:
+                continue
+            if neg:
+                holds_on_true = not holds_on_true
+            want_true_edge = holds_on_true == truth
+            out.append((bid, t if want_true_edge else fl))
+            break
+    return out
